@@ -70,10 +70,11 @@ class NPShim:
 
     @staticmethod
     def abs(x):
+        # |s| as an If-term: no path split
         if isinstance(x, S):
-            return abs(x)
+            return real.abs_s(x)
         if isinstance(x, _np.ndarray) and x.dtype == object:
-            return _np.frompyfunc(lambda e: abs(e), 1, 1)(x)
+            return _np.frompyfunc(lambda e: real.abs_s(e) if isinstance(e, S) else abs(e), 1, 1)(x)
         return _np.abs(x)
 
     @staticmethod
